@@ -395,6 +395,9 @@ func (r *Run) verifIntrinsic(st *State, fn *ssa.Function, a []Value, pos token.P
 		if po, ok := st.Hook.(*PO); ok && st.Hook != nil {
 			return nil, true, po.spawn(st, fv, nil, pos)
 		}
+		if rp, ok := st.Hook.(*POReplay); ok && st.Hook != nil {
+			return nil, true, rp.spawn(r, st, fv, nil)
+		}
 		st.Pending = append(st.Pending, pendingGo{Fn: fv})
 		return nil, true, nil
 	case "verifReach":
